@@ -304,7 +304,9 @@ func (p *H264Packet) parseBody(payload []byte) ([]byte, error) { //nolint:cyclop
 			return nil, errShortPacket
 		}
 
-		if p.fuaBuffer == nil {
+		if p.fuaBuffer == nil || payload[1]&fuStartBitmask != 0 {
+			// a start fragment begins a new unit: drop whatever an earlier,
+			// never completed fragment train left behind
 			p.fuaBuffer = []byte{}
 		}
 
